@@ -125,7 +125,7 @@ impl Check for C03 {
         ]
     }
     fn budget(t: Tier) -> usize {
-        t.pick(4000, 100_000)
+        t.pick(12_000, 300_000)
     }
     fn preflight() -> Result<(), String> {
         crate::preflight::decoder_preflight()
